@@ -48,9 +48,15 @@ const (
 type FS struct {
 	files    map[string]*inode
 	watchers []func(Event)
-	// InjectOpenErr makes the n-th (1-based) Open of a virtual path fail.
-	Opens int
-	Log   []string
+	Opens    int
+	Log      []string
+	// ReadHook, when set, decides the answer of every Read of a virtual file:
+	// want = len(buffer), avail = bytes left. It returns how many bytes to
+	// deliver (<= min(want, avail)) and an error to return with them
+	// (nil: none). Used for short reads and injected read errors.
+	ReadHook func(name string, want, avail int) (int, error)
+	// OpenHook, when set, may fail an Open of an existing virtual file.
+	OpenHook func(name string) error
 }
 
 var cur *FS
@@ -126,6 +132,11 @@ func (f *FS) Remove(name string) {
 	f.emit(Event{name, OpRemove})
 }
 
+// Put installs a file without event or scheduling point (initial state).
+func (f *FS) Put(name string, content []byte) {
+	f.files[name] = &inode{data: append([]byte{}, content...)}
+}
+
 // Exists reports whether name exists (harness use; no scheduling point).
 func (f *FS) Exists(name string) bool { _, ok := f.files[name]; return ok }
 
@@ -161,6 +172,11 @@ func Open(name string) (*File, error) {
 	in, ok := cur.files[name]
 	if !ok {
 		return nil, &fs.PathError{Op: "open", Path: name, Err: ErrNotExist}
+	}
+	if cur.OpenHook != nil {
+		if err := cur.OpenHook(name); err != nil {
+			return nil, &fs.PathError{Op: "open", Path: name, Err: err}
+		}
 	}
 	return &File{in: in, name: name}, nil
 }
@@ -203,7 +219,23 @@ func (f *File) Read(b []byte) (int, error) {
 	if len(b) == 0 {
 		return 0, nil
 	}
-	if f.pos >= int64(len(f.in.data)) {
+	avail := len(f.in.data) - int(f.pos)
+	if avail < 0 {
+		avail = 0
+	}
+	if cur != nil && cur.ReadHook != nil {
+		n, err := cur.ReadHook(f.name, len(b), avail)
+		copy(b[:n], f.in.data[f.pos:])
+		f.pos += int64(n)
+		if err != nil {
+			return n, &fs.PathError{Op: "read", Path: f.name, Err: err}
+		}
+		if n == 0 && avail == 0 {
+			return 0, io.EOF
+		}
+		return n, nil
+	}
+	if avail == 0 {
 		return 0, io.EOF
 	}
 	n := copy(b, f.in.data[f.pos:])
